@@ -150,7 +150,23 @@ def run_one(tape, cfg):
                     out.probe("npy_stack_many_blocks")
                 dx = da.from_array(x, chunks=srcs[0]["chunks"])
 
+                twin = tape.chance(1, 3, "twin_stack")
+
                 def client():
+                    if twin:
+                        # two stacks with the same directory name under different parents, other
+                        # contents, loaded in one computation
+                        out.probe("npy_two_stacks_same_basename")
+                        d1, d2 = os.path.join(scratch, "run1", "stack"), os.path.join(scratch, "run2", "stack")
+                        os.makedirs(d1)
+                        os.makedirs(d2)
+                        with dask.config.set(scheduler=simget):
+                            da.to_npy_stack(d1, dx, axis=axis)
+                            da.to_npy_stack(d2, dx + 1000, axis=axis)
+                        b1, b2 = da.from_npy_stack(d1), da.from_npy_stack(d2)
+                        box["chunks_axis"] = b1.chunks[axis]
+                        box["value"], box["value2"] = dask.compute(b1, b2, scheduler=simget)
+                        return
                     with dask.config.set(scheduler=simget):
                         da.to_npy_stack(scratch, dx, axis=axis)
                     back = da.from_npy_stack(scratch)
@@ -168,6 +184,9 @@ def run_one(tape, cfg):
                     if not np.array_equal(box["value"], x) or box["value"].dtype != x.dtype:
                         problems.append(("npy_stack_roundtrip", f"from_npy_stack(to_npy_stack(x)) != x; "
                                                                 f"axis={axis}"))
+                    if "value2" in box and not np.array_equal(box["value2"], x + 1000):
+                        problems.append(("npy_stack_roundtrip", f"second stack (same directory name, other "
+                                                                f"parent) loaded together != its array; axis={axis}"))
                     if tuple(box["chunks_axis"]) != tuple(srcs[0]["chunks"][axis]):
                         problems.append(("npy_stack_chunks", f"chunks along axis {axis}: "
                                                              f"{box['chunks_axis']} != {srcs[0]['chunks'][axis]}"))
